@@ -19,7 +19,7 @@ from ..solver_model import solver_function
 from .C10 import check_bounds
 from .C16 import discover_accessors
 
-TECHNIQUE = ('static analysis: abstract evaluation of the ordering helper in a list algebra over (order, membership) segments; symbolic evaluation of the renderer to a canonical table term (map fusion of comprehensions, append loops and += accumulation; alpha-equivalence with the stated table); parameter flow of the cell format; pass-through check of wrappers; loop-bound facts of the solve loop')
+TECHNIQUE = ('static analysis: abstract evaluation of the ordering helper in a list algebra over (order, membership) segments; symbolic evaluation of the renderer to a canonical table term (map fusion of comprehensions, append loops and += accumulation; alpha-equivalence with the stated table); parameter flow of the cell format; pass-through check of wrappers; loop-bound facts of the solve loop; alias analysis of accessors (shared with C16.R2); the variable-list coherence clause of C17.R1 recorded as R3')
 EXPLANATION = (
     'The ordering helper is evaluated abstractly: lists are concatenations of (order, membership predicate) segments over '
     'the atoms "is a stored name" / "is a priority name", loops that append / remove the loop element under membership tests '
@@ -309,13 +309,34 @@ def run(prog, check):
         for f_ in acc[role]:
             check_accessor(prog, check, f_, role, summ, pid_rules=(None, 'C19.R4'))
     check.floor('C19.R4', 1)
+    # the table reaches the 'timeseries' log: wherever a function writes it and closes the logs, the write comes first
+    for f_ in prog.all_functions():
+        if '/deprecated/' in f_.module.rel:
+            continue
+        for blk_owner in ast.walk(f_.node):
+            for fld in ('body', 'orelse', 'finalbody'):
+                blk = getattr(blk_owner, fld, None)
+                if not (isinstance(blk, list) and blk and isinstance(blk[0], ast.stmt)):
+                    continue
+                i_log = [i_ for i_, st_ in enumerate(blk) if isinstance(st_, ast.Expr) and isinstance(st_.value, ast.Call) and
+                         call_name(st_.value) == 'Logger' and any(isinstance(a_, ast.Constant) and a_.value == 'timeseries'
+                                                                 for a_ in list(st_.value.args) + [k_.value for k_ in st_.value.keywords])]
+                i_close = [i_ for i_, st_ in enumerate(blk) if isinstance(st_, ast.Expr) and isinstance(st_.value, ast.Call) and
+                           call_name(st_.value) == 'cleanup']
+                if i_log and i_close:
+                    okl = max(i_log) < min(i_close)
+                    check.saw(f_)
+                    check.ob('C19.R2', '%s::table-logged-before-logs-close' % f_.key, okl, '%s:%d' % (f_.module.rel, blk[i_log[0]].lineno),
+                             'the table is written to the timeseries log before the logs are closed' if okl else
+                             'the logs are closed before the table is written: the timeseries log of a successful run stays empty',
+                             "Model.main(base_file_name=...) with the 'timeseries' log registered")
     # the header names the series of the block that was solved: the solver's variable list is rebuilt when a new block is parsed
     # (the clause C17.R1 decides; a stale list seeds columns of a block that is gone and breaks the horizon+1 rows)
     if not getattr(check, '_borrowing', False):
         from ..report import Borrowed
         from . import C17 as _c17
         b17 = Borrowed(check, lambda rule, key: rule == 'C17.R1', 'C19.R3', 'one solver object given a second, different block and solved again')
-        _c17.run(prog, b17)
+        b17.run_lender(_c17, prog)
     check.floor('C19.R1', 3)
     check.floor('C19.R2', 7)
     check.floor('C19.R3', 1)
